@@ -217,4 +217,69 @@ def standin_sample_frames(tier, seed):
 
     return f(tier, seed)
 standin_sample_frames.prop = "C18"
-STANDINS = [standin_views, standin_numpy_digits, standin_state_histogram, standin_large_results, standin_packed_storage, standin_sample_frames]
+
+def standin_batches(tier, seed):
+    """run_batch: for every program of the batch, in the order the programs were given (list or mapping, any key order), the results of that
+    program's own sweep and repetition count, for every jobs_per_batch; every view of each result tells the same story"""
+    import itertools
+    import random
+
+    import cirq
+    import sympy
+
+    try:
+        import cirq_google as cg
+        from cirq_google.engine.simulated_local_processor import SimulatedLocalProcessor
+    except ImportError:
+        return dict(function="cirq-google/cirq_google/engine/processor_sampler.py:ProcessorSampler.run_batch", case="batches", bound="cirq_google not importable", cases=0, distinct=0, failures=0, exhaustive=False, _fails=[])
+    rng = random.Random(seed + 77)
+    qs = cirq.LineQubit.range(3)
+    v = sympy.Symbol("v")
+
+    def prog(bits):
+        return cirq.Circuit([cirq.X(q) for q, b_ in zip(qs, bits) if b_], cirq.X(qs[2]) ** v, cirq.measure(*qs, key="m"))
+
+    cases, fails = 0, []
+    names = ["zeta", "alpha", "mu", "beta"]
+    for trial in range(6 if tier == "quick" else 40):
+        k = rng.randrange(2, 5)
+        keys = rng.sample(names, k)                                  # mapping keys in any order
+        bits = [tuple(rng.randrange(2) for _ in range(2)) + (0,) for _ in range(k)]
+        sweeps = [cirq.Points("v", rng.choice([[0, 1], [1], [1, 0, 1]])) for _ in range(k)]
+        reps = rng.choice([3, [rng.randrange(1, 5) for _ in range(k)]])
+        for as_mapping, jpb in itertools.product((False, True), (1, 2, 3, 5)):
+            programs = {n: prog(b_) for n, b_ in zip(keys, bits)} if as_mapping else [prog(b_) for b_ in bits]
+            cases += 1
+            sampler = cg.ProcessorSampler(processor=SimulatedLocalProcessor(processor_id="p", sampler=cirq.Simulator(seed=1)), jobs_per_batch=jpb)
+            args = dict(programs="mapping with keys " + repr(keys) if as_mapping else "list", jobs_per_batch=jpb, prepared_bits=bits, sweeps=[repr(s_) for s_ in sweeps], repetitions=reps)
+            try:
+                out = sampler.run_batch(programs, sweeps, reps)
+            except Exception as ex:
+                fails.append(dict(args=args, failed="run_batch-raised", clause=f"{ex!r}"))
+                continue
+            problem = None
+            if len(out) != k:
+                problem = f"{len(out)} result lists for {k} programs"
+            for i in range(min(k, len(out))):
+                r_i = reps if isinstance(reps, int) else reps[i]
+                pts = list(sweeps[i])
+                if len(out[i]) != len(pts):
+                    problem = problem or f"program #{i}: {len(out[i])} results for {len(pts)} sweep points"
+                    continue
+                for res, pr in zip(out[i], pts):
+                    want = [list(bits[i][:2]) + [int(pr.value_of(v))]] * r_i
+                    got = res.measurements["m"].astype(int).tolist()
+                    if got != want or res.params != pr:
+                        problem = problem or f"program #{i} at {dict(pr.param_dict)}: rows {got[:1]} x{len(got)} with params {dict(res.params.param_dict)}, expected {want[:1]} x{r_i}"
+                    elif res.histogram(key="m") != {cirq.big_endian_bits_to_int(want[0]): r_i} or list(res.data["m"]) != [cirq.big_endian_bits_to_int(want[0])] * r_i:
+                        problem = problem or f"program #{i}: histogram / data frame disagree with the records"
+            if problem:
+                fails.append(dict(args=args, failed="batch-results", clause=problem))
+        if len(fails) >= 3:
+            break
+    return dict(function="cirq-google/cirq_google/engine/processor_sampler.py:ProcessorSampler.run_batch", case="batches",
+                bound="seeded batches of 2-4 deterministic programs (own sweep and repetition count each) x list / mapping with unsorted keys x jobs_per_batch in {1, 2, 3, 5}, local simulated processor",
+                cases=cases, distinct=cases, failures=len(fails), exhaustive=False, _fails=fails[:3])
+standin_batches.prop = "C18"
+
+STANDINS = [standin_views, standin_numpy_digits, standin_state_histogram, standin_large_results, standin_packed_storage, standin_sample_frames, standin_batches]
